@@ -44,8 +44,10 @@ let full_line (f : full) outs =
     if ev_on pfx then (Buffer.add_char b ' '; Buffer.add_string b t)) toks;
   Buffer.contents b
 
+(* every operation goes through CkAck.cka_step (= full_step for the operations of CkFull, plus the cluster
+   entry points for acknowledgements, script syntax: ack via=cluster ... / unack via=cluster) *)
 let apply name o =
-  let (f', outs) = full_step !fcfg (z_of_int !now) !fst_ o in
+  let (f', outs) = cka_step !fcfg (z_of_int !now) !fst_ o in
   fst_ := f';
   emit (name ^ " " ^ full_line f' outs)
 
@@ -80,13 +82,19 @@ let op_ckf_new a =
             fc_active_checks = (num a "active" 0 <> 0); fc_check_interval = z_of_int (num a "ci" 300) };
   fst_ := init_full
 
+let cka_of name a : cka_op option =
+  let b k = num a k 0 <> 0 in
+  let z k = z_of_int (if has a k then tnum (str a k "0") else 0) in
+  match name, str a "via" "api" with
+  | "ack", "cluster" -> Some (CkaClusterSet (b "sticky", b "notify", z "expiry"))
+  | "unack", "cluster" -> Some CkaClusterClear
+  | _ -> (match parse_op name a with Some o -> Some (CkaBase o) | None -> None)
+
 let op_ackread _ =
   let f = !fst_ in
   let ((av, f'), outs) = get_ack (z_of_int !now) f in
-  (* GetHandled(): GetProblem() && (IsInDowntime() || IsAcknowledged()); reads after the lazy expiry *)
-  let k = (!fcfg).fc_base.c_kind in
-  let problem = f'.f_st.s_has_cr && not (is_ok k f'.f_st.s_raw) in
-  let handled = problem && (in_downtime (z_of_int !now) f' || av <> AckNone) in
+  (* GetHandled(): GetProblem() && (IsInDowntime() || IsAcknowledged()) *)
+  let handled = get_handled !fcfg (z_of_int !now) f in
   fst_ := f';
   emit (Printf.sprintf "ackread a=%s handled=%d depth=%s %s" (zs (ackt_num av)) (if handled then 1 else 0)
           (zs (downtime_depth (z_of_int !now) f')) (full_line f' outs))
@@ -94,5 +102,5 @@ let op_ackread _ =
 let () =
   register_op "ckf_new" op_ckf_new;
   register_op "ackread" op_ackread;
-  List.iter (fun n -> register_op n (fun a -> match parse_op n a with Some o -> apply n o | None -> ()))
+  List.iter (fun n -> register_op n (fun a -> match cka_of n a with Some o -> apply n o | None -> ()))
     ["crf"; "parent"; "ack"; "unack"; "cmtimer"; "dt_add"; "dt_remove"; "dt_starttimer"; "dt_cleanup"; "fire"; "pause"; "nextcheck"]
